@@ -360,6 +360,17 @@ def rule4_affine(ctx, v):
         ctx.ob('C12.4', 'free: every stack is handed back, and only an existing one', ok_all and ok_none,
                'reaping makes the stack available for reuse (create/reap cycles run in bounded memory); a NULL stack is not pushed on '
                'the free list', loc=nts[0][0].loc)
+    # page rounding: (x + 4095) & ~4095 - the added constant and the mask belong together (a smaller addend maps a page too few
+    # for sizes that are not page multiples, and the top of the stack then lies in the neighbour)
+    nround = 0
+    for an in g.order:
+        if an.op == 'and' and const_int(an.ops[1]) is not None and const_int(an.ops[1]) in (-4096, (1 << 64) - 4096):
+            nround += 1
+            src = g.get(g.strip(an.ops[0])) if isinstance(an.ops[0], str) else None
+            okr = src is not None and src.op == 'add' and const_int(src.ops[1]) == 4095
+            ctx.ob('C12.4', 'alloc: page mask follows a round-up by page size - 1', okr,
+                   '(size + 0xFFF) & ~0xFFF', loc=an.loc, detail=expr_str(g, an.ops[0])[:120])
+    ctx.ob('C12.4', 'alloc: page-rounding sites', nround >= 2, 'custom and default branch', loc=g.loc, detail=str(nround))
     # class index agreement
     a = ctx.need_fn(v, 'myth_flmalloc')
     b = ctx.need_fn(v, 'myth_flfree')
@@ -567,6 +578,8 @@ def run(ctx):
 SCHED = 'src/myth_sched_func.h'
 MISC = 'src/myth_misc_func.h'
 MUTANTS = [
+    {'name': 'default stacks mapped with a short round-up (seed3 C12/m2)', 'expect': 'C12.4',
+     'edits': [(SCHED, "    alloc_size += 0xFFF;\n    alloc_size &= ~0xFFF;\n    char * th_ptr = myth_mmap(NULL, alloc_size, PROT_READ|PROT_WRITE, ", "    alloc_size += 0xFF;\n    alloc_size &= ~0xFFF;\n    char * th_ptr = myth_mmap(NULL, alloc_size, PROT_READ|PROT_WRITE, ")]},
     {'name': 'flmalloc maps a fresh block when a recycled one is available (sweep M0310)', 'expect': 'C12.4',
      'edits': [(MISC, "  if (!ptr){\n    //Freelist is empty, allocate", "  if (!(!ptr)){\n    //Freelist is empty, allocate")]},
     {'name': 'stack released only for threads that have none (sweep M0168, passes the suite)', 'expect': 'C12.4',
